@@ -1,6 +1,7 @@
 package main
 
 import (
+	"sort"
 	"fmt"
 	"go/token"
 	"go/types"
@@ -147,6 +148,17 @@ func ruleC07R2(r *Run) {
 		}
 	}
 	ndel, nlookup := 0, 0
+	inserts := map[string]int{}
+	defer func() {
+		var ks []string
+		for fk := range tables {
+			ks = append(ks, fk)
+		}
+		sort.Strings(ks)
+		for _, fk := range ks {
+			r.Check("table "+fk+" has a registration site", inserts[fk] > 0, "", "wire", fmt.Sprintf("%d map update(s) insert into %s outside constructors; a table that is only looked up and deleted from routes nothing", inserts[fk], fk))
+		}
+	}()
 	for _, fn := range p.Funcs {
 		if fnPkgPath(fn) != modPath+"/wire" {
 			continue
@@ -156,6 +168,9 @@ func ruleC07R2(r *Run) {
 			fk := fieldKey(a.Owner, a.Field)
 			if !tables[fk] {
 				continue
+			}
+			if a.What == "mapupdate" {
+				inserts[fk]++
 			}
 			if a.What == "delete" {
 				ndel++
@@ -198,6 +213,24 @@ func ruleC07R2(r *Run) {
 						bad = append(bad, "alias looked up with something other than the close request's StreamID")
 					}
 				}
+				// a delete guarded by a membership test of the same table sits on the found edge
+				allInstrs(fn, func(x ssa.Instruction) {
+					ifs, isIf := x.(*ssa.If)
+					if !isIf {
+						return
+					}
+					ex, isEx := ifs.Cond.(*ssa.Extract)
+					if !isEx || ex.Index != 1 {
+						return
+					}
+					lk, isLk := ex.Tuple.(*ssa.Lookup)
+					if !isLk || !lk.CommaOk || !hasLeaf(p.Leaves(lk.X, provOpts{}), "field:"+fk) {
+						return
+					}
+					if edgeDominates(ifs.Block(), ifs.Block().Succs[1], c.Block()) && !edgeDominates(ifs.Block(), ifs.Block().Succs[0], c.Block()) {
+						bad = append(bad, "the delete runs only on the not-found edge of the membership test at "+posOf(p, ifs)+": the entry of the closing stream is never removed")
+					}
+				})
 				r.Check(name+" delete "+fk, len(bad) == 0, p.pos(a.Ins.Pos()), name,
 					fmt.Sprintf("delete on %s keyed by [%s]%s", fk, joinLeaves(leaves), badSuffix(bad)))
 			}
